@@ -379,6 +379,46 @@ func BubbleCensus() []Goroutine {
 	return res
 }
 
+// StuckOnMutex decides, after a watchdog has fired, whether library code is parked on a mutex for good: it takes two
+// goroutine dumps two seconds apart and returns a goroutine that has a library frame and sits in sync.(RW)Mutex.Lock
+// in both. A lock that is still held long after everything else has gone quiet is a leaked lock, not scheduling.
+func StuckOnMutex() (site string, text string, ok bool) {
+	parked := func() map[string]Goroutine {
+		m := map[string]Goroutine{}
+		for _, g := range ParseStacks(AllStacks()) {
+			if !strings.Contains(g.Text, LibPrefix) {
+				continue
+			}
+			if strings.Contains(g.Header, "sync.Mutex.Lock") || strings.Contains(g.Header, "sync.RWMutex") {
+				id := strings.SplitN(g.Header, " ", 3)[1]
+				m[id] = g
+			}
+		}
+		return m
+	}
+	a := parked()
+	if len(a) == 0 {
+		return "", "", false
+	}
+	time.Sleep(2 * time.Second)
+	b := parked()
+	for id, g := range a {
+		if g2, still := b[id]; still && g2.InnermostLib() == g.InnermostLib() {
+			return g.InnermostLib(), g2.Text, true
+		}
+	}
+	return "", "", false
+}
+
+// WatchdogVerdict is what a workload returns when its wall-clock watchdog fired: a violation if library code is stuck
+// on a mutex (leaked lock), otherwise inconclusive.
+func WatchdogVerdict(what string) Result {
+	if site, text, ok := StuckOnMutex(); ok {
+		return Violation(what+": library goroutines are parked on a mutex that is never released", "stuck-on-mutex:"+site, map[string]any{"goroutine": text})
+	}
+	return Inconcl("wall-clock watchdog fired (" + what + ")")
+}
+
 // JSON is a helper for compact witnesses.
 func JSON(v any) string {
 	var b bytes.Buffer
